@@ -523,6 +523,9 @@ func (w *c10World) ingestWrapper(raw []byte, cw *c10Wrapper) []c10Step {
 			exp.port = int(rr.GetDstPort() % 65536)
 		}
 		exp.proto = c10TransportProto[parsed.GetRegistrationPayload().GetTransport()]
+		if rr == nil {
+			w.transportPort(reg)
+		}
 		// the station's own lifetime for that state, which must be the property's 10 min / 6 h
 		unused := uint64(w.rm.registeredDecoys.timeoutUnused.Nanoseconds())
 		active := uint64(w.rm.registeredDecoys.timeoutActive.Nanoseconds())
@@ -1006,6 +1009,7 @@ func TestVerifC10(t *testing.T) {
 	w.run([]c10Step{w.stepSend(d4, c10SixHoursNs, 2), w.stepSend(d4, c10TenMinutesNs, 1)}, true) // the longer lifetime is kept
 	w.run([]c10Step{w.stepRaw(c10Raw{op: "3", proto: "-", client: "-", phantom: "-", dport: "-", sport: "-", timeout: "-"})}, true)
 
+	w.transportTable()
 	w.admittedEnumeration(r)
 	tPhase := time.Now()
 	w.histories(vlib.NewRand("C10-histories"))
